@@ -100,7 +100,7 @@ def part_walk(ctx):
         ctx.count("walk:" + ("error" if a == "error" else "files=%d" % min(len(a or []), 6)))
         if a != b:
             ctx.brk("filter.go walkPaths/FilterIgnoredPaths ~ Walk.walkArgs", c, a, b)
-        elif a != want:
+        if a != want:
             ctx.fail("discovered files differ from 'every .rego file not under a skipped directory'", c, None, {"got": a, "want": want})
         elif nontriv:
             ctx.sample({"args": c["args"], "found": a, "tree": c["roots"]}, limit=2)
@@ -121,9 +121,10 @@ def part_compose(ctx):
     batch = {}
     for c in cases:
         i, m = impl[c["id"]], model[c["id"]]
-        if not kernel.compare(ctx, c, i, m):
-            continue
+        kernel.compare(ctx, c, i, m)
         io = i.get("out") or {}
+        if "error" in io or not io:
+            continue
         kernel.selfcheck(ctx, c, io)
         ctx.seen(c, ("compose", c["w"], c["k"], c["files"][0]["name"]) if io.get("violations") else None)
         nonagg = [v for v in io.get("violations") or [] if not v[5]]
